@@ -197,6 +197,16 @@ struct Dumper {
           OS << ",\"callee\":";
           if (auto *CF = C->getCalledFunction()) OS << "\"" << esc(CF->getName()) << "\""; else OS << "null";
           OS << ",\"ops\":["; bool x = true; for (auto &U : C->args()) { if (!x) OS << ","; x = false; OS << ref(U.get()); } OS << "]";
+          // per-argument memory facts for pointer arguments: [dereferenceable bytes, readonly?]
+          OS << ",\"pattr\":["; x = true;
+          for (unsigned ai = 0; ai < C->arg_size(); ++ai) {
+            if (!x) OS << ","; x = false;
+            uint64_t d = C->getParamDereferenceableBytes(ai);
+            if (auto *CF2 = C->getCalledFunction()) if (ai < CF2->arg_size()) d = std::max(d, CF2->getParamDereferenceableBytes(ai));
+            bool ro = C->onlyReadsMemory(ai) || C->onlyReadsMemory();
+            OS << "[" << d << "," << (ro ? 1 : 0) << "]";
+          }
+          OS << "]";
           if (auto *FPO = dyn_cast<FPMathOperator>(&I)) fmf(FPO);
         } else if (auto *P = dyn_cast<PHINode>(&I)) {
           OS << ",\"inc\":["; for (unsigned i = 0; i < P->getNumIncomingValues(); ++i) { if (i) OS << ","; OS << "[" << id(P->getIncomingBlock(i)) << "," << ref(P->getIncomingValue(i)) << "]"; } OS << "]";
